@@ -137,22 +137,79 @@ inline bool unhex(const std::string& s, Bytes& out)
     return true;
 }
 
+// Small deterministic generator for the structural mutator (seeded by libFuzzer's per-mutation seed; never used inside a property)
+struct MutRng
+{
+    uint64_t s;
+    explicit MutRng(uint64_t seed = 1)
+        : s(seed * 0x9E3779B97F4A7C15ull + 0x2545F4914F6CDD1Dull)
+    {
+    }
+    uint64_t next()
+    {
+        s ^= s << 13;
+        s ^= s >> 7;
+        s ^= s << 17;
+        return s * 0x2545F4914F6CDD1Dull;
+    }
+    uint64_t below(uint64_t n)
+    {
+        return n ? (next() >> 11) % n : 0;
+    }
+};
+
 class Ar
 {
 public:
+    // TextW / TextR: the replay-file format.  BinW / BinR: fixed-width little-endian image of the same fields (the input format of the
+    // coverage-guided mode, sec. 3.7 of DESIGN.md).  Visit: walks all fields and mutates the one whose running index is `target`.
+    enum Mode
+    {
+        TextW,
+        TextR,
+        BinW,
+        BinR,
+        Visit
+    };
+
     explicit Ar()
         : writing(true)
     {
     }
     explicit Ar(const std::string& text)
         : writing(false)
+        , mode(TextR)
         , in(text)
     {
     }
+    static Ar binWriter()
+    {
+        Ar a;
+        a.mode = BinW;
+        return a;
+    }
+    Ar(const uint8_t* data, size_t size)
+        : writing(true)
+        , mode(BinR)
+        , binIn(data)
+        , binSize(size)
+    {
+    }
+    Ar(uint64_t targetSlot, MutRng* r)
+        : writing(true)
+        , mode(Visit)
+        , target(targetSlot)
+        , rng(r)
+    {
+    }
 
-    bool writing;
+    bool writing;  // false only while parsing text (io() functions use it for fields that older replay files lack)
+    Mode mode{TextW};
     bool ok{true};
     std::string err;
+    Bytes bin;            // BinW output
+    uint64_t slots{0};    // Visit: number of mutable places seen so far
+    size_t elemBudget{60000};  // BinR: total number of vector elements one case may hold (bounds the work per fuzz input)
 
     std::string text() const
     {
@@ -162,7 +219,28 @@ public:
     template <class T>
     void num(const char* name, T& v)
     {
-        if (writing)
+        if (mode == BinW)
+        {
+            uint64_t x = static_cast<uint64_t>(v);
+            for (size_t i = 0; i < sizeof(T); ++i)
+                bin.push_back(static_cast<uint8_t>(x >> (8 * i)));
+            return;
+        }
+        if (mode == BinR)
+        {
+            uint64_t x = 0;
+            for (size_t i = 0; i < sizeof(T); ++i)
+                x |= static_cast<uint64_t>(binPos < binSize ? binIn[binPos++] : 0) << (8 * i);
+            v = static_cast<T>(x);
+            return;
+        }
+        if (mode == Visit)
+        {
+            if (slots++ == target)
+                mutateNum(v);
+            return;
+        }
+        if (mode == TextW)
         {
             indent();
             if constexpr (std::is_signed<T>::value)
@@ -198,7 +276,27 @@ public:
 
     void bytes(const char* name, Bytes& v)
     {
-        if (writing)
+        if (mode == BinW || mode == BinR)
+        {
+            uint16_t n = static_cast<uint16_t>(std::min<size_t>(v.size(), 65535));
+            num(name, n);
+            if (mode == BinW)
+                bin.insert(bin.end(), v.begin(), v.begin() + n);
+            else
+            {
+                size_t take = std::min<size_t>(n, binSize - binPos);
+                v.assign(binIn + binPos, binIn + binPos + take);
+                binPos += take;
+            }
+            return;
+        }
+        if (mode == Visit)
+        {
+            if (slots++ == target)
+                mutateBytes(v);
+            return;
+        }
+        if (mode == TextW)
         {
             indent();
             out << name << " " << hexOf(v) << "\n";
@@ -215,18 +313,47 @@ public:
     {
         Bytes b(v.begin(), v.end());
         bytes(name, b);
-        if (!writing)
+        if (mode != TextW && mode != BinW)
             v.assign(b.begin(), b.end());
     }
 
     template <class T>
     void vec(const char* name, std::vector<T>& v)
     {
+        if (mode == BinW || mode == BinR || mode == Visit)
+        {
+            if (mode == Visit)
+            {
+                if (slots++ == target)
+                    mutateVec(v);
+            }
+            else
+            {
+                uint16_t n16 = static_cast<uint16_t>(std::min<size_t>(v.size(), 65535));
+                num(name, n16);
+                if (mode == BinR)
+                {
+                    size_t n = binPos < binSize ? n16 : 0;  // nothing left to read: the vector ends here
+                    n = std::min(n, elemBudget);
+                    elemBudget -= n;
+                    v.assign(n, T{});
+                }
+                else if (v.size() > n16)
+                {
+                    for (size_t i = 0; i < n16; ++i)
+                        v[i].io(*this);
+                    return;
+                }
+            }
+            for (auto& e : v)
+                e.io(*this);
+            return;
+        }
         size_t n = v.size();
         num(name, n);
         if (!ok)
             return;
-        if (!writing)
+        if (mode == TextR)
         {
             if (n > (1u << 24))
             {
@@ -245,7 +372,7 @@ public:
     template <class T>
     void optionalNum(const char* name, T& v)
     {
-        if (!writing && peekName() != name)
+        if (mode == TextR && peekName() != name)
             return;
         num(name, v);
     }
@@ -274,7 +401,7 @@ public:
     template <class T>
     void optionalVec(const char* name, std::vector<T>& v)
     {
-        if (!writing)
+        if (mode == TextR)
         {
             std::streampos pos = in.tellg();
             std::string line, first;
@@ -302,11 +429,35 @@ public:
     template <class T>
     void numvec(const char* name, std::vector<T>& v)
     {
+        if (mode == BinW || mode == BinR || mode == Visit)
+        {
+            if (mode == Visit)
+            {
+                if (slots++ == target)
+                    mutateVec(v);
+            }
+            else
+            {
+                uint16_t n16 = static_cast<uint16_t>(std::min<size_t>(v.size(), 65535));
+                num(name, n16);
+                if (mode == BinR)
+                {
+                    size_t n = binPos < binSize ? n16 : 0;
+                    n = std::min(n, elemBudget);
+                    elemBudget -= n;
+                    v.assign(n, T{});
+                }
+            }
+            size_t lim = std::min<size_t>(v.size(), 65535);
+            for (size_t i = 0; i < lim; ++i)
+                num("-", v[i]);
+            return;
+        }
         size_t n = v.size();
         num(name, n);
         if (!ok)
             return;
-        if (!writing)
+        if (mode == TextR)
             v.assign(n, T{});
         ++depth;
         for (size_t i = 0; i < n && ok; ++i)
@@ -318,6 +469,133 @@ private:
     std::ostringstream out;
     std::istringstream in;
     int depth{0};
+    const uint8_t* binIn{nullptr};
+    size_t binSize{0};
+    size_t binPos{0};
+    uint64_t target{~0ull};
+    MutRng* rng{nullptr};
+
+    // --- structural mutations (coverage-guided mode only) ---
+    template <class T>
+    void mutateNum(T& v)
+    {
+        static const uint64_t special[] = {0,      1,      2,      3,      4,      7,       8,       15,      16,      23,         24,         25,         31,
+                                           32,     40,     63,     64,     100,    127,     128,     255,     256,     257,        511,        512,        1000,
+                                           1023,   1024,   1025,   1500,   2047,   2048,    4095,    4096,    4097,    8191,       8192,       16383,      16384,
+                                           32767,  32768,  65495,  65511,  65519,  65520,   65529,   65534,   65535,   65536,      65537,      65559,      65560,
+                                           100000, 131072, 999999999ull, 1000000000ull, 1000000001ull, 0x7FFFFFFFull, 0x80000000ull, 0xFFFFFFFEull, 0xFFFFFFFFull,
+                                           0x100000000ull, 0x7FFFFFFFFFFFFFFFull, 0x8000000000000000ull, 0xFFFFFFFFFFFFFFFFull};
+        using U = typename std::make_unsigned<T>::type;
+        U u = static_cast<U>(v);
+        const unsigned bits = sizeof(T) * 8;
+        switch (rng->below(10))
+        {
+            case 0:
+                u = static_cast<U>(u ^ (static_cast<U>(1) << rng->below(bits)));
+                break;
+            case 1:
+                u = static_cast<U>(u + 1);
+                break;
+            case 2:
+                u = static_cast<U>(u - 1);
+                break;
+            case 3:
+            case 4:
+                u = static_cast<U>(special[rng->below(sizeof(special) / sizeof(special[0]))]);
+                break;
+            case 5:
+                u = static_cast<U>(rng->next());
+                break;
+            case 6:
+                u = static_cast<U>(rng->below(17));
+                break;
+            case 7:
+                u = static_cast<U>(rng->below(2) ? u + 1 + rng->below(32) : u - 1 - rng->below(32));
+                break;
+            case 8:
+                u = static_cast<U>(rng->below(2) ? u * 2 : u / 2);
+                break;
+            default:
+                u = static_cast<U>(special[rng->below(sizeof(special) / sizeof(special[0]))] + rng->below(3) - 1);
+                break;
+        }
+        v = static_cast<T>(u);
+    }
+    void mutateBytes(Bytes& b)
+    {
+        switch (rng->below(5))
+        {
+            case 0:
+                if (!b.empty())
+                    b[rng->below(b.size())] ^= static_cast<uint8_t>(1u << rng->below(8));
+                break;
+            case 1:
+                b.insert(b.begin() + static_cast<long>(rng->below(b.size() + 1)), static_cast<uint8_t>(rng->next()));
+                break;
+            case 2:
+                if (!b.empty())
+                    b.erase(b.begin() + static_cast<long>(rng->below(b.size())));
+                break;
+            case 3:
+                if (!b.empty())
+                    b[rng->below(b.size())] = static_cast<uint8_t>(rng->below(2) ? 0 : 0xFF);
+                break;
+            default:
+                b.resize(rng->below(2) ? b.size() / 2 : std::min<size_t>(b.size() * 2 + 1, 4096), static_cast<uint8_t>(rng->next()));
+                break;
+        }
+    }
+    template <class E>
+    void mutateVec(std::vector<E>& v)
+    {
+        const size_t n = v.size();
+        switch (rng->below(7))
+        {
+            case 0:  // erase one
+                if (n)
+                    v.erase(v.begin() + static_cast<long>(rng->below(n)));
+                break;
+            case 1:  // duplicate one somewhere
+                if (n)
+                {
+                    E e = v[rng->below(n)];
+                    v.insert(v.begin() + static_cast<long>(rng->below(n + 1)), e);
+                }
+                else
+                    v.push_back(E{});
+                break;
+            case 2:  // swap two
+                if (n >= 2)
+                    std::swap(v[rng->below(n)], v[rng->below(n)]);
+                break;
+            case 3:  // append a default element
+                v.push_back(E{});
+                break;
+            case 4:  // repeat one element many times (long runs: counters, table sizes, thresholds)
+                if (n && n < 20000)
+                {
+                    size_t i = rng->below(n);
+                    static const size_t reps[] = {2, 3, 8, 16, 17, 64, 65, 255, 256, 257, 1024, 1025, 1030, 4097};
+                    size_t k = reps[rng->below(sizeof(reps) / sizeof(reps[0]))];
+                    E e = v[i];
+                    v.insert(v.begin() + static_cast<long>(i), k, e);
+                }
+                break;
+            case 5:  // truncate
+                if (n)
+                    v.resize(rng->below(n) + 1);
+                break;
+            default:  // move one element to another position
+                if (n >= 2)
+                {
+                    size_t i = rng->below(n);
+                    E e = v[i];
+                    v.erase(v.begin() + static_cast<long>(i));
+                    v.insert(v.begin() + static_cast<long>(rng->below(v.size() + 1)), e);
+                }
+                break;
+        }
+    }
 
     void indent()
     {
@@ -441,6 +719,29 @@ struct Stats
     std::set<std::string> sampleTagsSeen;
     bool exhaustive{false};
     std::string note;
+
+    // coverage-guided mode: the hash is taken from the binary image, the text is only produced when a sample is kept
+    void recordLazy(uint64_t hash, const std::function<std::string()>& text, const Info& info)
+    {
+        ++evaluations;
+        for (const auto& t : info.tags)
+            ++classes[t];
+        for (const auto& kv : info.counters)
+            counters[kv.first] += kv.second;
+        if (!info.nontrivial)
+            return;
+        ++nontrivial;
+        if (distinctNontrivial.size() < 4000000)
+            distinctNontrivial.insert(hash);
+        std::string key;
+        for (const auto& t : info.tags)
+            key += t + ",";
+        if (samples.size() < 6 && sampleTagsSeen.insert(key).second)
+        {
+            std::string s = text();
+            samples.push_back(s.size() > 3000 ? s.substr(0, 3000) + "\n...(truncated)" : s);
+        }
+    }
 
     void record(const std::string& serialized, const Info& info)
     {
@@ -576,7 +877,35 @@ struct Property
     std::function<void(int tier, const std::function<bool(const Case&)>& emit)> enumerate;
     bool enumerationIsExhaustive{false};
     std::string enumerationNote;
+    // coverage-guided mode (sec. 3.7): maps an arbitrary field image onto the input domain of the property (clamps, re-derives
+    // dependent fields, bounds the work).  Must be idempotent and must leave every generated case unchanged in meaning.
+    // A property without it has no coverage-guided stage.
+    std::function<void(Case&)> normalize;
 };
+
+template <class Case>
+Bytes toBin(const Case& c)
+{
+    Ar a = Ar::binWriter();
+    const_cast<Case&>(c).io(a);
+    return a.bin;
+}
+template <class Case>
+void fromBin(const uint8_t* data, size_t size, Case& c)
+{
+    Ar a(data, size);
+    c.io(a);
+}
+template <class Case>
+void mutateCase(Case& c, MutRng& rng)
+{
+    Ar counter(~0ull, &rng);
+    c.io(counter);
+    if (!counter.slots)
+        return;
+    Ar m(rng.below(counter.slots), &rng);
+    c.io(m);
+}
 
 struct Options
 {
@@ -607,6 +936,13 @@ inline Options parseOptions(int argc, char** argv)
             o.mode = "enum";
         else if (a == "--replay")
             o.mode = "replay";
+        else if (a == "--to-bin")
+        {
+            o.mode = "to-bin";
+            o.dumpDir = val();
+        }
+        else if (a == "--from-bin")
+            o.mode = "from-bin";
         else if (a == "--tier")
             o.tier = (val() == "thorough") ? 1 : 0;
         else if (a == "--fork")
@@ -695,6 +1031,86 @@ inline std::string writeFailure(const std::string& dir, const std::string& id, c
     return path;
 }
 
+#ifdef VF_CGF
+// ---------------------------------------------------------------------------------------------------
+// Coverage-guided mode: the same driver translation unit, built with -fsanitize=fuzzer -DVF_CGF -Dmain=vf_driver_main.  The fuzz
+// input is the binary field image of a Case; LLVMFuzzerCustomMutator mutates it structurally (one field / one vector operation at a
+// time, through the same io() functions), LLVMFuzzerTestOneInput normalises it into the property's domain and runs the same oracle.
+// ---------------------------------------------------------------------------------------------------
+struct CgfHooks
+{
+    std::function<int(const uint8_t*, size_t)> testOne;
+    std::function<size_t(uint8_t*, size_t, size_t, unsigned)> mutate;
+    std::function<void()> flush;
+};
+inline CgfHooks& cgfHooks()
+{
+    static CgfHooks h;
+    return h;
+}
+extern "C" size_t LLVMFuzzerMutate(uint8_t* data, size_t size, size_t maxSize);
+
+template <class Case>
+int pbtMain(int, char**, const Property<Case>& propIn)
+{
+    static Property<Case> prop = propIn;
+    static Stats stats;
+    static std::string statsPath = getenv("VF_STATS") ? getenv("VF_STATS") : "";
+    static std::string failDir = getenv("VF_FAILDIR") ? getenv("VF_FAILDIR") : ".";
+    if (!prop.normalize)
+    {
+        fprintf(stderr, "this property has no normalize(): no coverage-guided mode\n");
+        _exit(4);
+    }
+    cgfHooks().flush = []() {
+        if (!statsPath.empty())
+            stats.writeJson(statsPath, "cgf", false, "", "");
+    };
+    cgfHooks().testOne = [](const uint8_t* data, size_t size) -> int {
+        Case c{};
+        fromBin(data, size, c);
+        prop.normalize(c);
+        Info info;
+        Verdict v = prop.run(c, info);
+        {
+            Bytes img = toBin(c);
+            stats.recordLazy(fnv1a(img.data(), img.size()), [&c]() { return serialize(c); }, info);
+        }
+        if (!v.ok)
+        {
+            std::string text = serialize(c);
+            std::string path = writeFailure(failDir, prop.id, text, v.why);
+            std::string w = v.why;
+            for (auto& ch : w)
+                if (ch == '\n')
+                    ch = ' ';
+            printf("FAIL %s\n  why: %s\n", path.c_str(), w.c_str());
+            fflush(stdout);
+            cgfHooks().flush();
+            abort();
+        }
+        return 0;
+    };
+    cgfHooks().mutate = [](uint8_t* data, size_t size, size_t maxSize, unsigned seed) -> size_t {
+        MutRng rng(seed);
+        if (rng.below(8) == 0)
+            return LLVMFuzzerMutate(data, size, maxSize);  // libFuzzer's own byte-level mutations (incl. its compare-guided ones)
+        Case c{};
+        fromBin(data, size, c);
+        int n = 1 + static_cast<int>(rng.below(4) == 0 ? rng.below(4) : 0);
+        for (int i = 0; i < n; ++i)
+            mutateCase(c, rng);
+        prop.normalize(c);
+        Bytes b = toBin(c);
+        if (b.empty() || b.size() > maxSize)
+            return size;
+        memcpy(data, b.data(), b.size());
+        return b.size();
+    };
+    atexit([]() { cgfHooks().flush(); });
+    return 0;
+}
+#else
 template <class Case>
 int pbtMain(int argc, char** argv, const Property<Case>& prop)
 {
@@ -703,6 +1119,49 @@ int pbtMain(int argc, char** argv, const Property<Case>& prop)
     // a replayed file is its own reproduction: nothing is written next to the caller when it crashes
     if (opt.mode != "replay")
         installCrashCapture(opt.failDir, prop.id);
+
+    if (opt.mode == "to-bin")
+    {
+        // text cases -> seed inputs of the coverage-guided stage (normalised first, so that the corpus lies inside the domain)
+        int n = 0;
+        for (const auto& file : opt.files)
+        {
+            std::ifstream f(file);
+            std::stringstream ss;
+            ss << f.rdbuf();
+            Case c{};
+            std::string err;
+            if (!f || !parse(ss.str(), c, err))
+                continue;
+            if (prop.normalize)
+                prop.normalize(c);
+            Bytes b = toBin(c);
+            char name[64];
+            snprintf(name, sizeof(name), "/seed-%016" PRIx64, fnv1a(b.data(), b.size()));
+            std::ofstream o(opt.dumpDir + name, std::ios::binary);
+            o.write(reinterpret_cast<const char*>(b.data()), static_cast<std::streamsize>(b.size()));
+            ++n;
+        }
+        printf("TO-BIN %d\n", n);
+        return 0;
+    }
+    if (opt.mode == "from-bin")
+    {
+        // a libFuzzer artifact -> the text case it stands for (printed to stdout)
+        for (const auto& file : opt.files)
+        {
+            std::ifstream f(file, std::ios::binary);
+            std::stringstream ss;
+            ss << f.rdbuf();
+            std::string raw = ss.str();
+            Case c{};
+            fromBin(reinterpret_cast<const uint8_t*>(raw.data()), raw.size(), c);
+            if (prop.normalize)
+                prop.normalize(c);
+            fputs(serialize(c).c_str(), stdout);
+        }
+        return 0;
+    }
 
     if (opt.mode == "replay")
     {
@@ -830,6 +1289,7 @@ int pbtMain(int argc, char** argv, const Property<Case>& prop)
            stats.nontrivial, stats.distinctNontrivial.size());
     return 0;
 }
+#endif  // VF_CGF
 
 // ---------------------------------------------------------------------------------------------------
 // Generator helpers
@@ -877,3 +1337,22 @@ inline Bytes fillBytes(uint32_t seed, size_t n)
 }
 
 }  // namespace vf
+
+#ifdef VF_CGF
+int vf_driver_main(int argc, char** argv);
+extern "C" int LLVMFuzzerInitialize(int*, char***)
+{
+    char arg0[] = "driver";
+    char* args[] = {arg0, nullptr};
+    vf_driver_main(1, args);  // the driver's own main(): builds the Property and hands it to pbtMain, which registers the hooks
+    return 0;
+}
+extern "C" int LLVMFuzzerTestOneInput(const uint8_t* data, size_t size)
+{
+    return vf::cgfHooks().testOne(data, size);
+}
+extern "C" size_t LLVMFuzzerCustomMutator(uint8_t* data, size_t size, size_t maxSize, unsigned int seed)
+{
+    return vf::cgfHooks().mutate(data, size, maxSize, seed);
+}
+#endif
